@@ -706,6 +706,12 @@ impl Actor {
             }
         };
 
+        // Requests that were queued behind the shutdown request are not processed anymore. They have to be
+        // dropped here: their senders still hold the channel (and with it the queued reply handles) alive and
+        // would wait for an answer forever otherwise.
+        self.action_rx.close();
+        while self.action_rx.try_recv().is_ok() {}
+
         if let Err(cause) = self.store.flush() {
             warn!(?cause, "failed to flush store");
         }
